@@ -102,7 +102,53 @@ def run(ctx, repo):
         qual = [q for q in mod.functions if q.split('.')[-1] == fname]
         if not qual:
             raise AnalysisError('anchor vanished: %s in %s' % (fname, rel))
-        it = Interp(P, mod.tree, fname, EC, consts=consts)
+        try:
+            if fname in ('event_code_to_kind', 'unit_name'):
+                raise AnalysisError('pure first-match classifier: decided on its probed decision list')
+            it = Interp(P, mod.tree, fname, EC, consts=consts)
+        except AnalysisError as ae_:
+            if fname not in ('event_code_to_kind', 'unit_name'):
+                raise
+            # a pure first-match classifier written in a form the interpreter does not read (a loop over a named table, next(...)):
+            # its decision list is reconstructed by probing the folded function, and exhaustiveness is decided on the automata directly
+            from .. import fold as _fold2
+            fn_c = mod.functions[qual[0]]
+            tab_ = None
+            try:
+                tab_, none_out = _fold2.probe_first_match(fn_c, dict(repo.folded(rel)[0]), None)
+            except Exception as e2_:
+                tab_ = None
+            if not tab_ or not all(isinstance(nm_, str) and nm_ in P.parsed for nm_, _r, _o in tab_):
+                # not a list of named patterns: the regular-domain interpreter decides it (or fails closed)
+                it = Interp(P, mod.tree, fname, EC, consts=consts)
+                nf = report_interp(ctx, rel, qual[0], it)
+                analysed.append({'function': '%s::%s' % (rel, qual[0]), 'findings': nf, 'return_paths': len(it.ret), 'raise_paths': len(it.raises)})
+                if nf == 0:
+                    ctx.ok('R1-R5', '%s::%s total on L(PAT_EVENT_CODE)' % (rel, qual[0]))
+                continue
+            rest = EC
+            for nm_, _r, _o in tab_:
+                rest = rx.diff(rest, P.dfa(nm_))
+            nf = 0
+            if none_out[0] == 'raises':
+                covered = P.EMPTY
+                rkey = 'raise %s' % (none_out[1] or '')
+                for fam in FAMILIES:
+                    wf = P.wit(rx.inter(rest, P.dfa(fam)))
+                    covered = rx.union(covered, P.dfa(fam))
+                    if wf is not None:
+                        ctx.finding('R5', '%s::%s::%s::family %s' % (rel, qual[0], rkey, fam), rel, fn_c.lineno,
+                                    'an accepted %s code reaches this raise' % fam, {'input': wf})
+                        nf += 1
+                wo = P.wit(rx.diff(rest, covered))
+                if wo is not None:
+                    ctx.finding('R5', '%s::%s::%s' % (rel, qual[0], rkey), rel, fn_c.lineno, 'an accepted code reaches this raise', {'input': wo})
+                    nf += 1
+            analysed.append({'function': '%s::%s' % (rel, qual[0]), 'decision list (probed)': [nm_ for nm_, _r, _o in tab_], 'findings': nf,
+                             'when nothing matches': list(none_out)})
+            if nf == 0:
+                ctx.ok('R1-R5', '%s::%s total on L(PAT_EVENT_CODE) (decision list probed)' % (rel, qual[0]))
+            continue
         nf = report_interp(ctx, rel, qual[0], it)
         sinks = sum(1 for n in ast.walk(mod.functions[qual[0]]) if isinstance(n, ast.Call) and (
             call_name(n) in ('int', 'float', 'index', 'group', 'upper', 'endswith', 'startswith', 'strip')))
